@@ -1,7 +1,7 @@
 """C20 — built-in codec kernels conform to their published definitions for every input."""
 import struct
 from .. import g711
-from ..core import Violation
+from ..core import Violation, modules_for
 
 
 def hex_items(xs, digits):
@@ -64,7 +64,7 @@ def run(ctx):
     tabs = g711.parse_tables(lines)
     changed = ctx.set_generated("G711Tables.lean", g711.lean_tables(tabs))
     ctx.notes["generated_tables_changed"] = changed
-    ctx.lean_modules = ["SfProps.C20", "SfProps.C20Quant", "SfProps.C20Ieee"]
+    ctx.lean_modules = modules_for("C20")
     failed = ctx.lean_stage(ctx.lean_modules)
 
     found_input = False
